@@ -11,8 +11,10 @@ def skipsCond : String := "C.Skip() != nil"
 def flakyCond : String := "(len(C.Failures()) > 0 || len(C.Errors()) > 0) && C.Skip() == nil && C.Success() != nil"
 def allSucceededCond : String := "C.Skip() == nil && C.Success() == nil => return false; return true"
 def testsExpr : String := "return len(testSuite.TestCases)"
-def matchCond : String := "OLD.ClassName == NEW.ClassName && OLD.Name == NEW.Name"
-def addShape : String := "idx >= 0 ? append-executions : append-case"
+def addMatchKind : String := "separate"
+def addMatchFields : List String := ["ClassName", "Name"]
+def addMatchSep : String := ""
+def addShape : String := "found ? append-executions : append-case"
 def flakeLoopInit : String := "I := 1"
 def flakeLoopCond : String := "I <= FLAKINESS"
 def flakeLoopPost : String := "I++"
